@@ -318,6 +318,8 @@ def run(ctx):
     rep.floor('classifier cells', n2, 10)
     rep.floor('who-may-call instances', n3, 8)
     n4 = bitfield.check(rep, F)
+    n4s = bitfield.returns_carry_sign(rep, F)
+    rep.floor('float converters whose returns were checked for the sign', n4s, 4)
     n5 = infinity_direction(rep, F)
     rep.floor('float converters checked for the direction of infinity', n5, 1)
     from rules import floatpath
